@@ -171,7 +171,9 @@ func AppendUnzstdBytes(dst, src []byte) ([]byte, error) {
 // normalizes compression level into [0..7], so it could be used as an index
 // in *PoolMap.
 func normalizeZstdCompressLevel(level int) int {
-	if level < CompressZstdSpeedNotSet || level > CompressZstdBestCompression {
+	// CompressZstdSpeedNotSet (0) is not a level the encoder accepts
+	// (zstd.NewWriter fails with "unknown encoder level"), so it selects the default too.
+	if level <= CompressZstdSpeedNotSet || level > CompressZstdBestCompression {
 		level = CompressZstdDefault
 	}
 	return level
